@@ -43,18 +43,18 @@ func approvals(rng *kernel.RNG, op string, target int64, nval int) []kernel.Step
 
 // GenWorkload produces a list of transaction steps and "block" cuts.
 func GenWorkload(rng *kernel.RNG, c GenCfg) []kernel.Step {
-	weights := map[string]int{"chain": 4, "import": 6, "cand": 3, "relayer": 2, "node": 2, "priv": 2, "noise": 2, "sig": 1, "burst": 1, "delonly": 0, "twoepochs": 1, "returning": 1, "ripple": 1, "statevals": 1, "crossaction": 1, "ownervote": 1, "rejoin": 1, "updquit": 1, "candop": 1, "relayerdup": 0, "sigrotate": 1, "bigfail": 1}
+	weights := map[string]int{"chain": 4, "import": 6, "cand": 3, "relayer": 2, "node": 2, "priv": 2, "noise": 2, "sig": 1, "burst": 1, "delonly": 0, "twoepochs": 1, "returning": 1, "ripple": 1, "statevals": 1, "crossaction": 1, "ownervote": 1, "rejoin": 1, "updquit": 1, "candop": 1, "relayerdup": 0, "sigrotate": 1, "bigfail": 1, "fee": 1}
 	for k, v := range c.W {
 		weights[k] = v
 	}
 	// swarm: switch some families off entirely in some runs
-	for _, k := range []string{"chain", "import", "cand", "relayer", "node", "priv", "noise", "sig", "burst", "delonly", "twoepochs", "returning", "ripple", "statevals", "crossaction", "ownervote", "rejoin", "updquit", "candop", "sigrotate", "bigfail"} {
+	for _, k := range []string{"chain", "import", "cand", "relayer", "node", "priv", "noise", "sig", "burst", "delonly", "twoepochs", "returning", "ripple", "statevals", "crossaction", "ownervote", "rejoin", "updquit", "candop", "sigrotate", "bigfail", "fee"} {
 		if _, forced := c.W[k]; !forced && rng.Chance(0.15) {
 			weights[k] = 0
 		}
 	}
 	var fams []string
-	for _, k := range []string{"chain", "import", "cand", "relayer", "node", "priv", "noise", "sig", "burst", "delonly", "twoepochs", "returning", "ripple", "statevals", "crossaction", "ownervote", "rejoin", "updquit", "candop", "sigrotate", "bigfail"} {
+	for _, k := range []string{"chain", "import", "cand", "relayer", "node", "priv", "noise", "sig", "burst", "delonly", "twoepochs", "returning", "ripple", "statevals", "crossaction", "ownervote", "rejoin", "updquit", "candop", "sigrotate", "bigfail", "fee"} {
 		for i := 0; i < weights[k]; i++ {
 			fams = append(fams, k)
 		}
@@ -484,6 +484,35 @@ func GenWorkload(rng *kernel.RNG, c GenCfg) []kernel.Step {
 				txs = append(txs, S("blackchain", int64(rng.Intn(4)), mode, anyone()))
 			case 3:
 				txs = append(txs, S("whitechain", int64(rng.Intn(4)), mode, anyone()))
+			}
+		case "fee":
+			// fee voting of a chain in rounds: votes below the quorum, then (sometimes) more than the
+			// round timeout passes and a late vote closes the round and opens the next one; stale
+			// and premature round numbers, outsiders and repeat voters in between
+			ch := int64(rng.Intn(4))
+			perm := rng.Perm(c.NVal)
+			k := 1 + rng.Intn(quorum(c.NVal))
+			if k >= quorum(c.NVal) {
+				k = quorum(c.NVal) - 1
+			}
+			for i := 0; i < k; i++ {
+				txs = append(txs, S("updatefee", ch, int64(perm[i]), 0, int64(rng.Intn(1000))))
+			}
+			if rng.Chance(0.15) {
+				txs = append(txs, S("updatefee", ch, anyone(), int64(rng.Intn(3)), int64(rng.Intn(1000))))
+			}
+			txs = append(txs, S("cut"))
+			if rng.Chance(0.7) {
+				txs = append(txs, S("timejump", int64(301+rng.Intn(900))))
+			} else {
+				txs = append(txs, S("timejump", int64(1+rng.Intn(299))))
+			}
+			txs = append(txs, S("updatefee", ch, int64(perm[k%c.NVal]), 0, int64(rng.Intn(1000))), S("cut"))
+			for i := 0; i < quorum(c.NVal); i++ {
+				txs = append(txs, S("updatefee", ch, int64(perm[(k+1+i)%c.NVal]), 0, int64(rng.Intn(1000))))
+				if rng.Chance(0.5) {
+					txs = append(txs, S("cut"))
+				}
 			}
 		case "sigrotate":
 			// signatures for one subject are collected below the quorum, some of the signers then
